@@ -1,2 +1,118 @@
-(* C17 — every call awaiting a reply completes exactly once (placeholder while the proofs are being written). *)
-From DV Require Import PendingCall.Pending.
+(* C17 — every call awaiting a reply completes exactly once.  Only theorem
+   statements closed by [exact]; proofs live in Proofs/Pending*.v; the
+   vocabulary ([trace], [at_most_once], [paired], ...) is Spec/PendingSpec.v.
+   [trace h] is the trace of ANY interleaving h of events (threads included,
+   completion and notification being separate events); [trace1] is
+   single-threaded use. *)
+From Coq Require Import List NArith Bool.
+Import ListNotations.
+From DV Require Import PendingCall.Pending Spec.PendingSpec Proofs.PendingSerial Proofs.PendingLemmas Proofs.PendingRel Proofs.PendingCancel Proofs.PendingFault Proofs.PendingLive Proofs.PendingRefute Proofs.PendingTie.
+Local Open Scope N_scope.
+
+(* the reply slot of every call is assigned at most once and its notify function runs at most once, in every history *)
+Theorem C17_at_most_once : forall h, at_most_once (trace h).
+Proof. exact at_most_once_all. Qed.
+Print Assumptions C17_at_most_once.
+
+(* whatever completes call i carries call i's serial; until the counter wraps no other call has that serial *)
+Theorem C17_pairing : forall h, nowrap h -> paired (trace h) /\ unshared (trace h).
+Proof. exact pairing_all. Qed.
+Print Assumptions C17_pairing.
+
+(* serials handed out are non-zero and pairwise distinct as long as at most 2^32-1 were handed out *)
+Theorem C17_serials : forall h, N.of_nat (length (drawn (trace h))) <= two32 - 1 -> serials_ok (trace h).
+Proof. exact serials_all. Qed.
+Print Assumptions C17_serials.
+
+(* the counter itself: _dbus_connection_get_next_client_serial follows 1 + k mod (2^32-1), for ever *)
+Theorem C17_serial_sequence : forall k, snd (next_serial (spec_serial k)) = spec_serial (k + 1).
+Proof. exact next_serial_spec. Qed.
+Print Assumptions C17_serial_sequence.
+Theorem C17_serial_nonzero : forall k, spec_serial k <> 0.
+Proof. exact spec_serial_nonzero. Qed.
+Print Assumptions C17_serial_nonzero.
+(* the model's counter is the C function: checked on the table produced by compiling and running the C text *)
+Theorem C17_serial_tie :
+  forallb (fun '(c, (s, c')) => let '(s1, c1) := next_serial c in (s1 =? s) && (c1 =? c')) Gen.PendingTables.next_serial_samples = true
+  /\ serial init = Gen.PendingTables.initial_client_serial.
+Proof. exact (conj tie_next_serial tie_initial_serial). Qed.
+Print Assumptions C17_serial_tie.
+(* ... and the bound in C17_serials is sharp: the 2^32-th serial repeats the first *)
+Theorem C17_serial_wraps : spec_serial (two32 - 1) = spec_serial 0.
+Proof. exact spec_serial_wraps. Qed.
+Print Assumptions C17_serial_wraps.
+
+(* "A cancelled call is never notified": full statement (Spec.PendingSpec.C17_cancel_silent_full_statement),
+   which the faithful model does NOT meet; the part that holds: nobody blocks on the call after the cancel *)
+Theorem C17_cancel_silent_partial : forall h1 h2 i,
+  (i < length (call_serials (trace h1)))%nat -> count_complete i (trace h1) = 0%nat -> no_block_on i h2 ->
+  let tr2 := snd (run (fst (run init (h1 ++ [ECancel i]))) h2) in
+  count_complete i tr2 = 0%nat /\ count_notify i tr2 = 0%nat.
+Proof. exact cancel_silent_partial. Qed.
+Print Assumptions C17_cancel_silent_partial.
+
+Theorem C17_cancel_silent_refuted : ~ C17_cancel_silent_full_statement.
+Proof. exact cancel_silent_refuted. Qed.
+Print Assumptions C17_cancel_silent_refuted.
+
+(* no schedule crashes the library: full statement Spec.PendingSpec.C17_no_fault_full_statement, refuted below
+   (NULL timeout_link, fault 1); what holds: none of the C assertions in the completion path (reply slot empty,
+   reply serial matches, not yet completed: faults 2-4) can ever fail, in any history *)
+Theorem C17_fault_only_null_link : forall h, fault (fst (run init h)) = 0 \/ fault (fst (run init h)) = 1.
+Proof. exact fault_only_null_link. Qed.
+Print Assumptions C17_fault_only_null_link.
+
+Theorem C17_no_fault_refuted : ~ C17_no_fault_full_statement.
+Proof. exact no_fault_refuted. Qed.
+Print Assumptions C17_no_fault_refuted.
+
+(* a closed connection completes the outstanding calls: refuted *)
+Theorem C17_close_completes_refuted : ~ C17_close_completes_full_statement.
+Proof. exact close_completes_refuted. Qed.
+Print Assumptions C17_close_completes_refuted.
+
+(* "completes exactly once", progress half, single-threaded use.  Full statement for the closed connection:
+   Spec.PendingSpec.C17_close_completes_full_statement (refuted above).  What holds:
+   a call that is still awaited while a message with its serial is queued is completed exactly once and
+   notified exactly once by dispatching the queue; ... *)
+Theorem C17_queued_reply_completes_once : forall h i c,
+  let st := fst (run1 init h) in
+  fault st = 0 -> nowrap1 h ->
+  nth_error (calls st) i = Some c -> c_intable c = true -> (exists m, In m (queue st) /\ m_rs m = c_serial c) ->
+  let tr := trace1 (h ++ repeat EDispatch (length (queue st))) in
+  count_complete i tr = 1%nat /\ count_notify i tr = b2n (c_hasnotify c).
+Proof. exact queued_reply_completes_once. Qed.
+Print Assumptions C17_queued_reply_completes_once.
+
+(* ... and a timeout that fires while registered leads to exactly one completion (with the local error) *)
+Theorem C17_timeout_completes_once : forall h i c,
+  let st := fst (run1 init h) in
+  fault st = 0 -> nowrap1 (h ++ [EFire i]) -> nth_error (calls st) i = Some c -> c_tadded c = true ->
+  let st1 := fst (run1 init (h ++ [EFire i])) in
+  let tr := trace1 ((h ++ [EFire i]) ++ repeat EDispatch (length (queue st1))) in
+  count_complete i tr = 1%nat /\ count_notify i tr = b2n (c_hasnotify c).
+Proof. exact timeout_completes_once. Qed.
+Print Assumptions C17_timeout_completes_once.
+
+(* ---- non-vacuity: the hypotheses above are satisfiable, the conclusions are about real completions ---- *)
+Definition ex_h : list event := [ESend true true; EPlain; ESend false true; EPeerReply PReturn 1 7; EPeerReply PError 0 8; ERead].
+Example ex_nowrap : nowrap1 ex_h. Proof. vm_compute. reflexivity. Qed.
+Example ex_queued : let st := fst (run1 init ex_h) in
+  fault st = 0 /\ exists c, nth_error (calls st) 1 = Some c /\ c_intable c = true /\ c_serial c = 3 /\ exists m, In m (queue st) /\ m_rs m = 3.
+Proof. vm_compute. split; [reflexivity|]. eexists. split; [reflexivity|]. split; [reflexivity|]. split; [reflexivity|]. eexists. split; [left; reflexivity|reflexivity]. Qed.
+Example ex_completed_trace : trace1 (ex_h ++ [EDispatch; EDispatch]) =
+  [OSent (Some 1); OPlain 2; OSent (Some 3); OComplete 1 (mkMsg (KPeer PReturn) 3 7); ODispatch true; ONotify 1;
+   OComplete 0 (mkMsg (KPeer PError) 1 8); ODispatch false; ONotify 0].
+Proof. vm_compute. reflexivity. Qed.
+Example ex_timeout : let st := fst (run1 init [ESend true true]) in exists c, nth_error (calls st) 0 = Some c /\ c_tadded c = true.
+Proof. vm_compute. eexists. split; reflexivity. Qed.
+Example ex_cancel_hyp : (0 < length (call_serials (trace [ESend true true])))%nat /\ count_complete 0 (trace [ESend true true]) = 0%nat
+  /\ no_block_on 0 [EPeerReply PReturn 0 1; ERead; EDispatch].
+Proof. vm_compute. repeat split; auto. Qed.
+Example ex_cancelled_reply_goes_to_filter :
+  snd (run (fst (run init [ESend true true; ECancel 0])) [EPeerReply PReturn 0 1; ERead; EDispatch]) = [OFilter (mkMsg (KPeer PReturn) 1 1); ODispatch false].
+Proof. vm_compute. reflexivity. Qed.
+Example ex_threads_notify_after_other_events :
+  trace [ESend true true; EPeerReply PReturn 0 1; ERead; EDispatch; ESteal 0; EFinish 0; EFinish 0] =
+  [OSent (Some 1); OComplete 0 (mkMsg (KPeer PReturn) 1 1); ODispatch false; OStolen (Some (Some (mkMsg (KPeer PReturn) 1 1))); ONotify 0].
+Proof. vm_compute. reflexivity. Qed.
